@@ -31,6 +31,34 @@ pub enum Event {
 thread_local! {
     static LOG: RefCell<Vec<Event>> = const { RefCell::new(Vec::new()) };
     static SEED: Cell<Option<u64>> = const { Cell::new(None) };
+    static FUEL: Cell<Option<u64>> = const { Cell::new(None) };
+}
+
+/// Message of the panic raised when the fuel set with [set_fuel] is used up
+pub const FUEL_EXHAUSTED: &str = "verif-hooks: fuel exhausted";
+
+/// Limit the number of steps the statement iterator may take on this thread from now on
+/// (`None` = unlimited). When the fuel is used up the iterator panics with
+/// [FUEL_EXHAUSTED], which turns a run-away `next()` into something a harness can catch.
+pub fn set_fuel(fuel: Option<u64>) {
+    FUEL.with(|f| f.set(fuel));
+}
+
+/// Fuel left on this thread
+pub fn fuel_left() -> Option<u64> {
+    FUEL.with(|f| f.get())
+}
+
+pub(crate) fn burn_fuel() {
+    FUEL.with(|f| {
+        if let Some(n) = f.get() {
+            if n == 0 {
+                f.set(None);
+                panic!("{}", FUEL_EXHAUSTED);
+            }
+            f.set(Some(n - 1));
+        }
+    });
 }
 
 /// Force the seed of every evaluation context created on this thread from now on
